@@ -95,6 +95,9 @@ SCRIPTED = [
     ("4k2r/6P1/8/8/8/8/8/4K3 w k - 0 1", ["g7h8n", "e8d8", "h8g6"]),           # promotion capturing a rook on its corner
     ("4k2r/6P1/8/8/8/8/4P1P1/4RKR1 w k - 0 1", ["g7h8n"]),                     # ... after which the side to move still "could" castle
     ("r3k3/1P6/8/8/8/8/4P1P1/3RKR2 w q - 0 1", ["b7a8b"]),
+    # forced perpetual check: the repetition filter of the root meets a position with a single legal move
+    ("6k1/6p1/8/7Q/8/8/1r6/6K1 w - - 0 1", ["h5e8", "g8h7", "e8h5", "h7g8", "h5e8"]),
+    ("6k1/1R6/8/8/7q/8/6P1/6K1 b - - 0 1", ["h4e1", "g1h2", "e1h4", "h2g1", "h4e1"]),
     ("r3k3/1P6/8/8/8/8/8/4K3 w q - 0 1", ["b7a8b", "e8d8"]),
     ("4k3/8/8/8/8/8/1p6/R3K3 b Q - 0 1", ["b2a1q", "e1e2"]),
     ("4k3/8/8/8/8/8/6p1/4K2R b K - 0 1", ["g2h1r", "e1e2"]),
@@ -106,7 +109,7 @@ LONG = [
 ]
 
 
-def playout_script(tier, seed):
+def playout_script(tier, seed, skip=()):
     rng = Rng(seed)
     ngames = 96 if tier == "quick" else 1600
     blocks = []
@@ -124,6 +127,8 @@ def playout_script(tier, seed):
         lines += ["show", "pgn", "imp"]
         blocks.append(lines)
     for si, (root, moves) in enumerate(SCRIPTED):
+        if "s%d" % si in skip:
+            continue
         lines = ["# s%d" % si, "new " + root, "obs", "gend", "dump", "imp"]
         for m in moves:
             lines += ["hist " + m, "obs", "gend", "dump", "pp", "imp", "show", "pgn"]
@@ -237,8 +242,14 @@ class PlayoutRun:
     def __init__(self, tier, seed):
         self.tier = tier
         self.seed = seed
-        self.blocks = playout_script(tier, seed)
         key = "%s-%d" % (tier, seed)
+        # the scripted games are hand-written: a game the RULES do not accept is a fault of the corpus, not of the engine,
+        # and is left out (and named in the evidence) instead of being blamed on the implementation
+        vb = [["# s%d" % si, "speclast %s | %s" % (" ".join(mv), root)] for si, (root, mv) in enumerate(SCRIPTED)]
+        vr = cached_run("scripted-valid", SPECDRIVER, vb, "scripted")
+        self.corpus_dropped = sorted(g for g in ("s%d" % si for si in range(len(SCRIPTED)))
+                                     if not (vr.get(g) and vr[g][0].startswith("specply %d sane=1" % len(SCRIPTED[int(g[1:])][1]))))
+        self.blocks = playout_script(tier, seed, skip=set(self.corpus_dropped))
         self.impl_raw = cached_run("playout-impl", HARNESS, self.blocks, key)
         self.model_raw = cached_run("playout-model", DRIVER, self.blocks, key)
         self.impl = {gid: parse_game(lines) for gid, lines in self.impl_raw.items()}
